@@ -141,8 +141,37 @@ pub fn child_mode(k: K, mode: Mode) -> Mode {
             Mode::Math
         }
         K::CodeBlock | K::Code => Mode::Code,
+        k if is_code_only(k) => Mode::Code,
         _ => mode,
     }
+}
+
+/// Node kinds that only exist in code (also when embedded in markup or math through `#`).
+pub fn is_code_only(k: K) -> bool {
+    matches!(
+        k,
+        K::Dict
+            | K::Parenthesized
+            | K::CodeBlock
+            | K::Closure
+            | K::Params
+            | K::Unary
+            | K::Binary
+            | K::LetBinding
+            | K::SetRule
+            | K::ShowRule
+            | K::Conditional
+            | K::WhileLoop
+            | K::ForLoop
+            | K::ModuleImport
+            | K::ImportItems
+            | K::ModuleInclude
+            | K::Contextual
+            | K::DestructAssignment
+            | K::Destructuring
+            | K::Keyed
+            | K::FuncReturn
+    )
 }
 
 /// A gap = boundary between two adjacent non-trivia leaves, or a Space/Parbreak leaf.
